@@ -184,6 +184,21 @@ func cmdEnum(args []string) {
 		block := [][]byte{}
 		base := gh.Case{Ev: "case", Def: d.ID, Argv: []gh.Tok{}, Disp: d.Disp}
 		baseRaw := gh.RunCase(d, &base).Raw
+		if d.HelpF && *shard == 0 {
+			for n := range d.Cfg.Nodes {
+				if d.Cfg.Nodes[n].IsHelp {
+					continue
+				}
+				id++
+				c := gh.Case{Ev: "case", Def: d.ID, ID: *idBase + 40000000 + 100*d.ID + n, Argv: []gh.Tok{}, Comp: "help", HN: n + 1}
+				c.Res = gh.RunCase(d, &c)
+				line, _ := json.Marshal(&c)
+				block = append(block, line)
+				cases++
+				nontrivial++
+				stats["help-case"]++
+			}
+		}
 		idx := make([]int, 0, L)
 		var rec func()
 		rec = func() {
